@@ -1,6 +1,7 @@
 """Shared generator / comparator / oracles for the file-cache properties C18 and C19."""
 import itertools
 import json
+import os
 
 import common as C
 
@@ -105,7 +106,7 @@ def small_alphabet(faults):
     return ops
 
 
-def sanitize(ops, par, allow):
+def sanitize(ops, par, allow, dups=False):
     """keep histories inside the modelled envelope:
        * a crash (process death) only in sequential mode, and it is followed by a reopen;
        * in parallel mode (chunks of five misses, all awaited) raising faults are allowed, a process death is not;
@@ -116,13 +117,17 @@ def sanitize(ops, par, allow):
         if op["op"] == "M":
             par, allow = op["p"], op["a"]
         if op["op"] == "G":
-            seen = set()
+            seen = {}
             reqs = []
             outcome = {}
             for q in op["reqs"]:
                 if (q["r"], q["k"]) in seen:
+                    # the same URI twice in one request: an exact repetition (same directives), and in sequential
+                    # mode only (parallel workers would race on one temporary file)
+                    if dups and not par:
+                        reqs.append(json.loads(json.dumps(seen[(q["r"], q["k"])])))
                     continue
-                seen.add((q["r"], q["k"]))
+                seen[(q["r"], q["k"])] = q
                 q["out"] = outcome.setdefault(q["r"], q["out"])
                 if par and q["out"][0] == "C":
                     q["out"] = ["H", q["out"][1]]      # a process death is explored in sequential mode only
@@ -224,10 +229,12 @@ VSTYLES = ["bool", "numpy", "int"]
 
 def environment(h):
     """features of the environment that the model does not (and need not) see: the type of the truth value a
-    validation function returns, and whether the user keeps sub directories inside the cache directory"""
+    validation function returns, whether the user keeps sub directories inside the cache directory, and whether
+    the cache directory is given as an absolute path or relative to the working directory"""
     k = h["maxb"] // 100 + len(h["ops"]) + sum(len(str(o)) for o in h["ops"])
     h["validator_returns"] = VSTYLES[k % 3]
     h["foreign_subdirectories"] = (k // 3) % 2 == 0
+    h["relative_cache_path"] = (k // 6) % 3 == 0
     return h
 
 
@@ -389,6 +396,37 @@ def nontrivial(h):
     return len(gets) >= 1 and len(h["ops"]) >= 2
 
 
+def duplicate_history(rng, nres=4):
+    """requests that name the same URI more than once (exact repetitions), sequential mode, outcomes
+    delivered / not found only, no directives, a cache large enough never to evict: the stream where the
+    order of time stamps - which a repeated download makes ambiguous - does not matter and is not compared"""
+    ops = []
+    for _ in range(rng.randint(2, 6)):
+        x = rng.random()
+        if x < 0.7:
+            base = []
+            gone = rng.sample(range(nres), rng.choice([0, 1, 1, 2]))
+            for _ in range(rng.randint(1, 4)):
+                r = rng.randrange(nres)
+                out = ["N"] if r in gone else ["K", rng.randint(0, 6)]
+                base.append({"r": r, "k": rng.choice([0, 0, 1]), "val": "N", "post": "N", "out": out})
+            reqs = list(base)
+            for _ in range(rng.randint(1, 3)):
+                reqs.insert(rng.randint(0, len(reqs)), dict(rng.choice(base)))
+            ops.append({"op": "G", "reqs": reqs})
+        elif x < 0.85:
+            ops.append({"op": "O", "evict": rng.random() < 0.5})
+        else:
+            ops.append({"op": "R", "r": rng.randrange(nres), "k": rng.choice([0, 0, 1])})
+    allow = rng.random() < 0.8
+    h = {"maxb": 50000, "par": False, "allow": allow, "ops": sanitize(ops, False, allow, dups=True),
+         "duplicate_uris": True}
+    if rng.random() < 0.3:
+        h["via_module"] = True
+        h["allow"] = True
+    return environment(h)
+
+
 def run_histories(ctx, hs, pid, chunk=400):
     total_ok = 0
     for a in range(0, len(hs), chunk):
@@ -408,6 +446,8 @@ def run_histories(ctx, hs, pid, chunk=400):
                         if q["val"] != "N":
                             ctx.tally("validate " + q["val"])
             ctx.tally("parallel" if h["par"] else "sequential")
-            if check_history(ctx, h, parse_model(mo), io, pid):
+            if h.get("duplicate_uris"):
+                ctx.tally("requests naming a URI twice")
+            if check_history(ctx, h, parse_model(mo), io, pid, strict_order=not h.get("duplicate_uris")):
                 total_ok += 1
     return total_ok
